@@ -17,5 +17,11 @@ CONSTANTS Names = {"n1"}
           E = 4
           ChainMode = FALSE
           Prefix = 0
+          NB = 0
+          MinB = 0
+          PreC = 0
+          PostC = 0
+          SimMode = FALSE
+          Procs = {}
           Devs = {}
 INVARIANTS Emit
